@@ -278,6 +278,32 @@ def _refs(e, names):
     return set(n.id for n in ast.walk(e) if isinstance(n, ast.Name) and n.id in names)
 
 
+def r2b_stateless_parsers(cx):
+    """A grammar object is shared by every parse (and every thread): whatever process() records must live in the per-call Context.  State kept on the
+    parser object itself (a set of active positions, a memo, a counter) is a trace one parse leaves for another."""
+    cx.rule("C19.R2", "combinators never write to the input and touch the context only through error bookkeeping", floor=19)
+    m = cx.repo.module(PS)
+    for name in CORE:
+        fn = m.func("%s.process" % name, "C19.R2")
+        bad = []
+        for x in walk_body(fn.body):
+            base = None
+            if isinstance(x, (ast.Attribute, ast.Subscript)) and isinstance(x.ctx, (ast.Store, ast.Del)):
+                base = x
+            elif isinstance(x, ast.Call) and isinstance(x.func, ast.Attribute) and x.func.attr in ("add", "discard", "remove", "append", "extend", "pop", "clear", "update", "setdefault", "insert"):
+                base = x.func.value
+            elif isinstance(x, ast.AugAssign) and isinstance(x.target, (ast.Attribute, ast.Subscript)):
+                base = x.target
+            if base is None:
+                continue
+            root = base
+            while isinstance(root, (ast.Attribute, ast.Subscript)):
+                root = root.value
+            if isinstance(root, ast.Name) and root.id == "self":
+                bad.append(x)
+        cx.require(not bad, bad[0] if bad else fn, "%s.process keeps no state on the (shared) parser object" % name, construct=short(bad[0]) if bad else "%s.process" % name)
+
+
 def r3_taglang(cx):
     cx.rule("C19.R3", "tag-expression grammar: precedence stratification and operator table", floor=10)
     m = cx.repo.module("insights.core.taglang")
@@ -479,6 +505,7 @@ def run(cx):
                     "INFO: WithIndent / StartTagName / EndTagName are context-sensitive extensions outside the property's combinator list"]
     cx.guard(r1_threading)
     cx.guard(r2_no_trace)
+    cx.guard(r2b_stateless_parsers)
     cx.guard(r3_taglang)
     cx.guard(r4_json)
     cx.guard(r5_no_shared_extension)
